@@ -15,7 +15,7 @@ fn keystream(len: usize) {
 }
 fn keystream_at(len: usize, start: usize) {
     model::reset(0);
-    unsafe { model::CONSISTENT = false; }
+    unsafe { model::CONSISTENT.v = false; }
     let mut phy: [u8; KBUF] = kani::any();
     let orig = phy;
     // MHDR + FHDR(7..22) + FPort: 9 (no FOpts) or 24 (15 bytes of FOpts)
@@ -28,10 +28,10 @@ fn keystream_at(len: usize, start: usize) {
     let dir = (orig[0] & 0x20) >> 5;
     let addr = [orig[1], orig[2], orig[3], orig[4]];
     unsafe {
-        assert!(model::ENC_N == nblocks, "C01: one AES block per started 16 bytes");
+        assert!(model::ENC_N.v == nblocks, "C01: one AES block per started 16 bytes");
         let j: usize = kani::any();
         if j < nblocks {
-            let e = model::ENC[j];
+            let e = model::ENC.v[j];
             assert!(e.key == model::pack(&key.0) && !e.decrypt, "C01: keystream under the given key");
             assert!(e.input == ref_a(dir, addr, fcnt, (j + 1) as u8), "C01: block counter byte i = 1.. and the full 32-bit FCnt in A_i");
             let m: usize = kani::any();
